@@ -325,6 +325,8 @@ func genC18(rng *rand.Rand, seed uint64, tier string) *Script {
 				ops = append(ops, Op{K: "msg", W: rng.IntN(g.Wallets), Mut: "vauth_proof", To: pick(rng, "fresh1", "fresh2", "w3", "fresh3"), Note: pick(rng, "", "", "", "wrongkey", "v27")})
 			case k < 25 && withApprovals:
 				ops = append(ops, genErc20PairOp(rng, &g, 1, false))
+			case k < 30: // slots at the ends of the key space
+				ops = append(ops, genSlotWrite(rng, rng.IntN(g.Wallets)))
 			case k < 40: // storage: set and clear slots, zero-valued writes
 				ops = append(ops, Op{K: "eth", W: rng.IntN(g.Wallets), To: "c:clear", Gas: "i+300000", Price: "b+1", Data: hexWord(1+rng.IntN(8)) + hexWord(pick(rng, 0, 0, 5, 0xff))})
 			case k < 50: // creation, possibly with storage written by the constructor
